@@ -1,11 +1,14 @@
 import Zrnt.Driver.Loop
 import Zrnt.Beacon.Spec.Transition
+import Zrnt.Beacon.Impl.Epoch
 /-!
 `zmodel c02`. Every op line is  `<op> [<sub>] key=value …`  where the key=value tokens are the flat
 pre-state, the configuration constants and the op's extra inputs:
 
 * `echo`                      → abbreviated flat form of the parsed state (format round trip)
-* `epoch <sub>`               → one epoch sub-transition (or `all` = `process_epoch`) on the pre-state
+* `epoch <sub>`               → one epoch sub-transition (or `all` = `process_epoch`) on the pre-state;
+                                for `justification`, `registry`, `slashings`, `effective_balance`, `all` the answer is
+                                `<code-shaped model M> | <specification S>`
 * `slots target=<slot> sroots=<slot>:<root>,…`  → `process_slots` incl. fork upgrades
 * `upgrade`                   → the fork upgrade due at the pre-state's slot (if any)
 
@@ -74,6 +77,16 @@ def epochSub (cfg : Config) (agg : AggOracle) (sub : String) (s : State) : Optio
   | "sync_committee" => if s.fork = .phase0 then none else some (process_sync_committee_updates cfg agg s)
   | _ => none
 
+/-- the code-shaped model `M` of a sub-transition, where there is one -/
+def epochSubM (cfg : Config) (agg : AggOracle) (sub : String) (s : State) : Option (SM State) :=
+  match sub with
+  | "all" => some (Impl.processEpochM cfg agg s)
+  | "justification" => some (Impl.justificationM cfg s)
+  | "registry" => some (Impl.registryM cfg s.validators s)
+  | "slashings" => some (Impl.slashingsM cfg s.validators s)
+  | "effective_balance" => some (Impl.effectiveBalanceM cfg s.validators s)
+  | _ => none
+
 def c02Line (line : String) : String :=
   let toks := tokens line
   let (kv, rest) := parseKV toks
@@ -87,7 +100,10 @@ def c02Line (line : String) : String :=
     | ["echo"] => printStateAbbrev s
     | ["epoch", sub] =>
       match epochSub cfg agg sub s with
-      | some r => out r
+      | some r =>
+        match epochSubM cfg agg sub s with
+        | some m => out m ++ " | " ++ out r
+        | none => out r
       | none => "bad-op"
     | ["slots"] =>
       match kv.get? "target" >>= (·.toNat?), kv.get? "sroots" >>= parseRoots with
